@@ -327,6 +327,64 @@ fn huge_k_probe_child(k: usize) -> ! {
     std::process::exit(0);
 }
 
+/// `CMSHeap::new` takes any sketch - also one that has already counted (estimates of 2^32 and more from the first add on).
+/// Every stream to length 6 over 4 letters, k = 1..3, four pre-load patterns: at every prefix iter() yields
+/// min(k, distinct letters seen) DISTINCT letters, all of them added.
+fn preloaded_sketch() -> (u64, Vec<Viol>) {
+    let mut viols: Vec<Viol> = vec![];
+    let mut steps = 0u64;
+    let codes = collision_free_codes(64, 4);
+    let letters: Vec<El> = (0..4).map(|i| El { id: i as u8, code: codes[i] }).collect();
+    'outer: for k in 1..=3usize {
+        for pattern in 0..4usize {
+            for seq in 0..4usize.pow(6) {
+                let mut cms: CountMinSketch<El> = CountMinSketch::with_params(64, 4);
+                let big = (1usize << 32) + 5;
+                match pattern {
+                    0 => { cms.add_n(&letters[3], &big); }
+                    1 => { cms.add_n(&letters[0], &big); cms.add_n(&letters[1], &(big + 1)); }
+                    2 => { for l in &letters { cms.add_n(l, &big); } }
+                    _ => { cms.add_n(&letters[2], &(usize::MAX / 4)); }
+                }
+                let mut heap: CMSHeap<El> = CMSHeap::new(k, cms);
+                let mut seen = [false; 4];
+                let mut x = seq;
+                let mut hist = vec![];
+                for _ in 0..6 {
+                    let l = x % 4;
+                    x /= 4;
+                    hist.push(l);
+                    seen[l] = true;
+                    steps += 1;
+                    let r = mccore::panics::catch(|| {
+                        heap.add(letters[l].clone());
+                        heap.iter().map(|e| e.id).collect::<Vec<u8>>()
+                    });
+                    let bad = match &r {
+                        Err(p) => Some(format!("add panicked: {}", p)),
+                        Ok(res) => {
+                            let mut d = res.clone();
+                            d.sort_unstable();
+                            d.dedup();
+                            let distinct = seen.iter().filter(|&&b| b).count();
+                            if d.len() != res.len() { Some(format!("iter() yields a letter twice: {:?}", res)) }
+                            else if res.len() != k.min(distinct) { Some(format!("iter() yields {} letters {:?}, expected min(k, distinct seen) = {}", res.len(), res, k.min(distinct))) }
+                            else if res.iter().any(|&e| !seen[e as usize]) { Some(format!("iter() yields a letter that was never added: {:?}", res)) }
+                            else { None }
+                        }
+                    };
+                    if let Some(msg) = bad {
+                        viols.push(Viol { property: "C10".into(), signature: "cmsheap over a pre-loaded sketch".into(), message: format!("k={}, 64x4 collision-free sketch pre-loaded (pattern {}) with counts >= 2^32, stream {:?}: {}", k, pattern, hist, msg),
+                            replay: json!({"structure": "CMSHeap", "k": k, "sketch": [64, 4], "preload_pattern": pattern, "preload": "0: letter 3 x (2^32+5); 1: letters 0, 1 x (2^32+5), (2^32+6); 2: every letter x (2^32+5); 3: letter 2 x usize::MAX/4", "stream": hist}) });
+                        break 'outer;
+                    }
+                }
+            }
+        }
+    }
+    (steps, viols)
+}
+
 fn huge_k_probes() -> (u64, Vec<Viol>) {
     let mut viols = vec![];
     let ks = [usize::MAX, usize::MAX / 2, usize::MAX / 16, 1usize << 48, 1usize << 40];
@@ -379,6 +437,11 @@ fn main() {
         let (n, vs) = huge_k_probes();
         run.ev.set("huge_k_probes", json!(n));
         for v in vs {
+            run.violation(v);
+        }
+        let (n2, vs2) = preloaded_sketch();
+        run.ev.set("preloaded_sketch_steps", json!(n2));
+        for v in vs2 {
             run.violation(v);
         }
     }
